@@ -98,6 +98,18 @@ def gen_C12(tier, rng):
         yield (f"x25519.base {le32(s)}", "base.special")
         for u in specials_u:
             yield (f"x25519.dh {le32(s)} {le32(u)}", "dh.special")
+    # single-bit neighbours of the distinguished u values (a shortcut keyed on "u is the base point" / "u is 0" that
+    # compares too few bytes or bits is only visible one bit away from the value: seeded change C12-5)
+    near = [9, 0, 1, P - 1, P, P + 1] + (list(SMALL_ORDER_U) if not quick else [])
+    for u0 in near:
+        for bit in range(256):
+            if quick and u0 != 9 and bit % 8 not in (0, 7):
+                continue
+            s = rng.getrandbits(256)
+            yield (f"x25519.dh {le32(s)} {le32(u0 ^ (1 << bit))}", "dh.near_special")
+    # the same for scalars next to distinguished scalar values (0, the clamping pattern)
+    for bit in range(0, 256, 1 if not quick else 5):
+        yield (f"x25519.dh {le32((2**254 + 8) ^ (1 << bit))} {le32(rng.getrandbits(256))}", "dh.near_scalar")
     # random x random / random x near-boundary
     for _ in range(300 if quick else 6000):
         yield (f"x25519.dh {le32(rng.getrandbits(256))} {le32(rand_value(rng))}", "dh.random")
